@@ -64,7 +64,7 @@ pub fn alphabet(origin: u16, bps: &[u16; 3]) -> Vec<Cmd> {
         Cmd::StepInto(1),
         Cmd::StepInto(2),
         Cmd::StepInto(7),
-        Cmd::StepInto(1000),
+        Cmd::StepInto(40000),
         Cmd::StepOut,
         Cmd::Continue,
     ];
@@ -230,7 +230,7 @@ pub fn random_script(rng: &mut Rng, origin: u16, n_words: u16, stack: bool, max_
     for _ in 0..len {
         v.push(match rng.below(12) {
             0 | 1 => Cmd::Step,
-            2 => Cmd::StepInto(*rng.pick(&[0u32, 1, 1, 2, 3, 7, 50, 1000])),
+            2 => Cmd::StepInto(*rng.pick(&[0u32, 1, 1, 2, 3, 7, 50, 1000, 32767, 32768, 40000, 65535])),
             3 => Cmd::StepInto(1),
             4 if stack => Cmd::StepOut,
             4 => Cmd::StepOut,
